@@ -425,7 +425,7 @@ func runPatterns(r *engine.Run) {
 	}
 	specs := []tierSpec{{2, 2, flagSets}, {3, 3, flagSets}, {4, 0, flagSets}}
 	if r.Thorough() {
-		specs = append(specs, tierSpec{4, 4, []string{"", "i", "g"}}, tierSpec{5, 0, []string{"", "im", "g"}})
+		specs = append(specs, tierSpec{4, 2, []string{"", "i", "g"}}, tierSpec{5, 0, []string{"", "im", "g"}})
 	}
 	e := newEnv(r, "patterns", 3, 2)
 	if e == nil {
